@@ -156,6 +156,9 @@ type World struct {
 	DepositAcc   string
 	RequestAcc   string
 	FeeCollector string
+
+	// RebootEachStep: the node process restarts before every step (C20's second instance)
+	RebootEachStep bool
 }
 
 func decOf(s string) sdk.Dec {
@@ -172,9 +175,7 @@ func NewWorld(cfg Config) *World {
 	app, base := sharedApp()
 	cctx, _ := base.CacheContext()
 	w := &World{app: app, cfg: cfg}
-	w.k = keeper.NewKeeper(app.AppCodec(), app.GetKey(types.StoreKey), app.AccountKeeper, app.BankKeeper,
-		harnessTokens{}, app.GetSubspace(types.ModuleName), authtypes.FeeCollectorName)
-	w.handler = service.NewHandler(w.k)
+	w.bootProcess()
 	w.ctx = cctx.WithBlockHeight(1).WithBlockTime(time.Unix(0, StartTimeNs).UTC())
 	w.DepositAcc = hx(app.AccountKeeper.GetModuleAddress(types.DepositAccName))
 	w.RequestAcc = hx(app.AccountKeeper.GetModuleAddress(types.RequestAccName))
@@ -210,6 +211,32 @@ func NewWorld(cfg Config) *World {
 		}
 	}
 
+	if ms := cfg.ModSvc; ms != nil {
+		prov := addr(ms.Provider)
+		w.k.SetServiceDefinition(w.ctx, types.NewServiceDefinition(ModSvcName, "module service", nil, addr(ms.Owner), "",
+			`{"input":{"type":"object"},"output":{"type":"object"}}`))
+		dep := sdk.NewCoins(sdk.NewCoin("stake", sdk.NewInt(ms.Deposit)))
+		b := types.NewServiceBinding(ModSvcName, prov, dep, ms.Pricing, ms.QoS, "{}", true, time.Time{}, addr(ms.Owner))
+		if err := w.k.SetServiceBindingForGenesis(w.ctx, b); err != nil {
+			panic("harness: module binding: " + err.Error())
+		}
+		// the deposit recorded on the binding is in custody, as for any binding
+		w.mintToModule(types.DepositAccName, ms.Deposit)
+	}
+	return w
+}
+
+// bootProcess gives the world what a starting node process has: a new keeper value (empty process
+// memory) over the same stores, its message handler, and the registrations the host's modules make
+// at application start (callbacks, module services). NewWorld calls it once; a twin world of C20 calls
+// it before every step, so that anything the module keeps in process memory instead of the store -
+// and that therefore differs between a node that has run since genesis and one that was restarted -
+// shows up as a divergence.
+func (w *World) bootProcess() {
+	app, cfg := w.app, w.cfg
+	w.k = keeper.NewKeeper(app.AppCodec(), app.GetKey(types.StoreKey), app.AccountKeeper, app.BankKeeper,
+		harnessTokens{}, app.GetSubspace(types.ModuleName), authtypes.FeeCollectorName)
+	w.handler = service.NewHandler(w.k)
 	// consumer module
 	if err := w.k.RegisterResponseCallback(VMod, w.respCallback); err != nil {
 		panic(err)
@@ -236,23 +263,12 @@ func NewWorld(cfg Config) *World {
 		}
 	}
 	if ms := cfg.ModSvc; ms != nil {
-		prov := addr(ms.Provider)
 		if err := w.k.RegisterModuleService(ModSvcMod, &types.ModuleService{
-			ServiceName: ModSvcName, Provider: prov, ReuquestService: w.modService,
+			ServiceName: ModSvcName, Provider: addr(ms.Provider), ReuquestService: w.modService,
 		}); err != nil {
 			panic(err)
 		}
-		w.k.SetServiceDefinition(w.ctx, types.NewServiceDefinition(ModSvcName, "module service", nil, addr(ms.Owner), "",
-			`{"input":{"type":"object"},"output":{"type":"object"}}`))
-		dep := sdk.NewCoins(sdk.NewCoin("stake", sdk.NewInt(ms.Deposit)))
-		b := types.NewServiceBinding(ModSvcName, prov, dep, ms.Pricing, ms.QoS, "{}", true, time.Time{}, addr(ms.Owner))
-		if err := w.k.SetServiceBindingForGenesis(w.ctx, b); err != nil {
-			panic("harness: module binding: " + err.Error())
-		}
-		// the deposit recorded on the binding is in custody, as for any binding
-		w.mintToModule(types.DepositAccName, ms.Deposit)
 	}
-	return w
 }
 
 func (w *World) mint(to sdk.AccAddress, amt int64) {
@@ -337,6 +353,9 @@ func panicString(r interface{}) string {
 
 // Step executes one action with chain semantics and records pre/post observations.
 func (w *World) Step(a Action) *StepRec {
+	if w.RebootEachStep {
+		w.bootProcess()
+	}
 	rec := &StepRec{Index: w.steps, Action: a, Height: w.Height(), TimeNs: w.TimeNs()}
 	w.steps++
 	rec.Pre = w.SnapshotAt(w.ctx)
